@@ -4,6 +4,7 @@
   module's ERC20 balance; each ERC20 and each denom in at most one mapping) holds after every operation of every history.
 -/
 import NibiruModel.FunToken
+import Generated.Facts
 
 namespace Nibiru.FunToken
 open Nibiru
@@ -728,5 +729,13 @@ def demoOps : List Op :=
 example : (run demoState demoOps).reg.length = 2 ∧ (run demoState demoOps).tsupply 1 = 20 ∧
     (run demoState demoOps).bbal "ulog" modAcct = 20 ∧ (run demoState demoOps).bsupply "e0" = 25 ∧
     (run demoState demoOps).tbal 0 modAcct = 32 := by decide
+
+/-! ### T1 (regenerated from x/evm on every run) -/
+
+/-- the bank ledger the model speaks about is the one the StateDB mirrors: outside `bank_extension.go` (where the overrides
+    delegate) only `Keeper.SetAccBalance` — the write-back of the StateDB itself — selects the embedded `BaseKeeper`; every
+    FunToken flow moves coins through the `NibiruBankKeeper` overrides, which keep the in-flight StateDB in step with the bank -/
+theorem fact_C06_bank_calls_go_through_the_wrapper :
+    Generated.bankBaseKeeperBypassSites = ["x/evm/keeper:Keeper.SetAccBalance"] := by decide
 
 end Nibiru.FunToken
